@@ -1,7 +1,8 @@
 SPEC = {
     "claimed": True,
     "gen": ["consts", "bitfields", "huffman"],
-    "theorems": ['C03_inert6', 'C03_inert6_bytes', 'C03_garbage6', 'C03_inert7', 'C03_inert7_connless', 'C03_exception7', 'C03_tokens_not_reserved6', 'C03_tokens_not_reserved7', 'C03_nonvacuous'],
+    "props_files": ["C03", "C03v7"],
+    "theorems": ['C03_inert6', 'C03_inert6_bytes', 'C03_garbage6', 'C03_inert7', 'C03_inert7_connless', 'C03_exception7', 'C03_tokens_not_reserved6', 'C03_tokens_not_reserved7', 'C03_nonvacuous', 'C03_inert7_bytes', 'C03_exception7_bytes', 'C03v7_nonvacuous'],
     "allowed_axioms": [],
     "extract": {
         "LibTw2.Model.Conn6": ["step", "needs_tick", "conn6_new"],
